@@ -3,8 +3,10 @@ package c16
 import (
 	"context"
 	"errors"
+	"fmt"
 	"sync"
 	"testing"
+	"time"
 
 	eth2client "github.com/attestantio/go-eth2-client"
 	"github.com/attestantio/go-eth2-client/api"
@@ -12,10 +14,13 @@ import (
 	"github.com/attestantio/go-eth2-client/spec"
 	"github.com/attestantio/go-eth2-client/spec/phase0"
 	cache "github.com/attestantio/vouch/services/cache/standard"
+	bestattdata "github.com/attestantio/vouch/strategies/attestationdata/best"
+	majorityattdata "github.com/attestantio/vouch/strategies/attestationdata/majority"
 	bestproposal "github.com/attestantio/vouch/strategies/beaconblockproposal/best"
 	"github.com/rs/zerolog"
 	"pgregory.net/rapid"
 
+	"verifharness/c03world"
 	"verifharness/internal/fakes"
 )
 
@@ -26,6 +31,31 @@ type EventSpec struct {
 	Slot  uint64          `json:"slot"`
 	Root  byte            `json:"root"`
 	Block SignedBlockSpec `json:"block"` // what fetching the block of a head event returns
+	// Further members of a head event (0 = the zero root).
+	PrevDep         byte `json:"prev_dep,omitempty"`
+	CurDep          byte `json:"cur_dep,omitempty"`
+	EpochTransition bool `json:"epoch_transition,omitempty"`
+	// NilData: the event carries no data.  The client library never delivers that, but every
+	// handler claims to check for it.
+	NilData bool `json:"nil_data,omitempty"`
+}
+
+// ControllerSpec adds the real controller (services/controller/standard, built in the virtual
+// world of c03world) to the consumers of the events.
+type ControllerSpec struct {
+	MaxProposalDelayMs           uint64 `json:"max_proposal_delay_ms"`
+	FastTrack                    bool   `json:"fast_track"`
+	VerifySyncCommitteeInclusion bool   `json:"verify_sync_committee_inclusion"`
+	Altair                       bool   `json:"altair"`
+}
+
+// AttDataProbe asks the majority attestation-data strategy (wired to the cache the events went
+// into) for attestation data whose head is the block of one of the events.
+type AttDataProbe struct {
+	Roots      []byte `json:"roots"`       // head root byte per beacon node
+	HeaderSlot uint64 `json:"header_slot"` // slot of the header the node returns for a root the cache does not know
+	HeaderErr  string `json:"header_err,omitempty"`
+	Strategy   string `json:"strategy"` // majority | best
 }
 
 // EventsCase drives the event handlers of services/cache/standard and of
@@ -34,6 +64,8 @@ type EventsCase struct {
 	CurrentSlot uint64          `json:"current_slot"`
 	Initial     SignedBlockSpec `json:"initial"` // the head block the cache fetches when it starts
 	Events      []EventSpec     `json:"events"`
+	Controller  *ControllerSpec `json:"controller,omitempty"`
+	AttData     *AttDataProbe   `json:"att_data,omitempty"`
 }
 
 type scriptedBlocks struct {
@@ -88,12 +120,56 @@ func (errHeaders) BeaconBlockHeader(context.Context, *api.BeaconBlockHeaderOpts)
 	return nil, context.DeadlineExceeded
 }
 
+// scriptedHeaders answers header requests as the probe says: an error of one of the client's
+// kinds, or a header (non-nil, as the decoder guarantees) with the scripted slot.
+type scriptedHeaders struct{ probe *AttDataProbe }
+
+func (h scriptedHeaders) BeaconBlockHeader(_ context.Context, opts *api.BeaconBlockHeaderOpts) (*api.Response[*apiv1.BeaconBlockHeader], error) {
+	if h.probe == nil {
+		return nil, context.DeadlineExceeded
+	}
+	if h.probe.HeaderErr != "" {
+		return nil, clientError(h.probe.HeaderErr, "v1/beacon/headers")
+	}
+	return &api.Response[*apiv1.BeaconBlockHeader]{Data: &apiv1.BeaconBlockHeader{
+		Canonical: true,
+		Header:    &phase0.SignedBeaconBlockHeader{Message: &phase0.BeaconBlockHeader{Slot: phase0.Slot(h.probe.HeaderSlot)}},
+	}, Metadata: map[string]any{}}, nil
+}
+
+type attDataNode struct {
+	root byte
+}
+
+func (n attDataNode) AttestationData(_ context.Context, opts *api.AttestationDataOpts) (*api.Response[*phase0.AttestationData], error) {
+	// slot and committee index echo the request (the client library checks that)
+	return &api.Response[*phase0.AttestationData]{Data: &phase0.AttestationData{
+		Slot: opts.Slot, Index: opts.CommitteeIndex, BeaconBlockRoot: rootOf(n.root),
+		Source: &phase0.Checkpoint{Epoch: 1, Root: rootOf(0x31)}, Target: &phase0.Checkpoint{Epoch: 2, Root: rootOf(0x32)},
+	}, Metadata: map[string]any{}}, nil
+}
+
 func rootOf(b byte) phase0.Root {
 	var r phase0.Root
 	for i := range r {
 		r[i] = b
 	}
 	return r
+}
+
+func buildEvent(e *EventSpec) *apiv1.Event {
+	topic := "block"
+	if e.Topic == "head" {
+		topic = "head"
+	}
+	if e.NilData {
+		return &apiv1.Event{Topic: topic}
+	}
+	if topic == "head" {
+		return &apiv1.Event{Topic: "head", Data: &apiv1.HeadEvent{Slot: phase0.Slot(e.Slot), Block: rootOf(e.Root), State: rootOf(e.Root ^ 0xff),
+			EpochTransition: e.EpochTransition, PreviousDutyDependentRoot: rootOf(e.PrevDep), CurrentDutyDependentRoot: rootOf(e.CurDep)}}
+	}
+	return &apiv1.Event{Topic: "block", Data: &apiv1.BlockEvent{Slot: phase0.Slot(e.Slot), Block: rootOf(e.Root)}}
 }
 
 func runEvents(c *EventsCase, out *outcome) {
@@ -103,10 +179,12 @@ func runEvents(c *EventsCase, out *outcome) {
 	blocks := &scriptedBlocks{next: &c.Initial}
 	evp := &captureEvents{handlers: map[string][]eth2client.EventHandlerFunc{}}
 
+	var cacheSvc *cache.Service
 	out.addPanic(guard(func() {
-		_, err := cache.New(ctx,
+		var err error
+		cacheSvc, err = cache.New(ctx,
 			cache.WithLogLevel(zerolog.Disabled), cache.WithMonitor(nullMonitor), cache.WithChainTime(clock), cache.WithScheduler(fakes.NewSched()),
-			cache.WithEventsProvider(evp), cache.WithSignedBeaconBlockProvider(blocks), cache.WithBeaconBlockHeadersProvider(errHeaders{}))
+			cache.WithEventsProvider(evp), cache.WithSignedBeaconBlockProvider(blocks), cache.WithBeaconBlockHeadersProvider(scriptedHeaders{probe: c.AttData}))
 		if err != nil {
 			out.harness = "cannot construct cache: " + err.Error()
 		}
@@ -140,17 +218,17 @@ func runEvents(c *EventsCase, out *outcome) {
 		bestBlocks.mu.Lock()
 		bestBlocks.next = &e.Block
 		bestBlocks.mu.Unlock()
-		var event *apiv1.Event
-		switch e.Topic {
-		case "head":
-			event = &apiv1.Event{Topic: "head", Data: &apiv1.HeadEvent{Slot: phase0.Slot(e.Slot), Block: rootOf(e.Root), State: rootOf(e.Root ^ 0xff)}}
-		default:
-			event = &apiv1.Event{Topic: "block", Data: &apiv1.BlockEvent{Slot: phase0.Slot(e.Slot), Block: rootOf(e.Root)}}
-		}
+		event := buildEvent(e)
 		for _, h := range evp.handlers[e.Topic] {
 			handler := h
 			out.addPanic(guard(func() { handler(event) }))
 		}
+	}
+	if c.AttData != nil && cacheSvc != nil {
+		runAttDataProbe(ctx, c, clock, cacheSvc, out)
+	}
+	if c.Controller != nil {
+		runControllerEvents(c, out)
 	}
 	// first validation layer: a block fetched for a head event (or at start) decoded and was
 	// handed to vouch.
@@ -166,6 +244,89 @@ func runEvents(c *EventsCase, out *outcome) {
 	}
 }
 
+// runAttDataProbe: the attestation data strategies look the head slot of the data up in the
+// block-root-to-slot cache, which holds whatever slots the node's block events and headers carried.
+func runAttDataProbe(ctx context.Context, c *EventsCase, clock *fakes.VClock, cacheSvc *cache.Service, out *outcome) {
+	providers := map[string]eth2client.AttestationDataProvider{}
+	for i, r := range c.AttData.Roots {
+		providers[fmt.Sprintf("node%d", i)] = attDataNode{root: r}
+	}
+	if len(providers) == 0 {
+		return
+	}
+	// the request's slot is vouch's own (a duty slot inside the clock's epoch)
+	opts := &api.AttestationDataOpts{Slot: phase0.Slot(c.CurrentSlot), CommitteeIndex: 1}
+	var err error
+	var provider eth2client.AttestationDataProvider
+	if c.AttData.Strategy == "best" {
+		provider, err = bestattdata.New(ctx, bestattdata.WithLogLevel(zerolog.Disabled), bestattdata.WithClientMonitor(nullMonitor),
+			bestattdata.WithProcessConcurrency(2), bestattdata.WithAttestationDataProviders(providers), bestattdata.WithTimeout(200*time.Millisecond),
+			bestattdata.WithChainTime(clock), bestattdata.WithBlockRootToSlotCache(cacheSvc))
+	} else {
+		provider, err = majorityattdata.New(ctx, majorityattdata.WithLogLevel(zerolog.Disabled), majorityattdata.WithClientMonitor(nullMonitor),
+			majorityattdata.WithProcessConcurrency(2), majorityattdata.WithAttestationDataProviders(providers), majorityattdata.WithTimeout(200*time.Millisecond),
+			majorityattdata.WithChainTime(clock), majorityattdata.WithBlockRootToSlotCache(cacheSvc), majorityattdata.WithThreshold(1))
+	}
+	if err != nil {
+		out.harness = "cannot construct attestation data strategy: " + err.Error()
+		return
+	}
+	out.addPanic(guard(func() {
+		if _, err := provider.AttestationData(ctx, opts); err != nil {
+			out.label("events:attdata-" + c.AttData.Strategy + "-error")
+		} else {
+			out.label("events:attdata-" + c.AttData.Strategy + "-ok")
+		}
+	}))
+}
+
+// runControllerEvents delivers the events to the handlers of the real controller.
+func runControllerEvents(c *EventsCase, out *outcome) {
+	// The controller's clock: the case's current slot, folded into the range in which the virtual
+	// clock's time arithmetic does not overflow.
+	cs := c.CurrentSlot % (1 << 26)
+	p := &c03world.Params{SlotsPerEpoch: 32, SlotSeconds: 12, EpochsPerSyncPeriod: 256, Altair: c.Controller.Altair, AltairForkEpoch: 0,
+		MaxProposalDelayMs: c.Controller.MaxProposalDelayMs, MaxAttestationDelayMs: 4000, AttestationAggregationMs: 8000,
+		MaxSyncCommitteeMessageMs: 4000, SyncCommitteeAggregationMs: 8000,
+		FastTrackAttestations: c.Controller.FastTrack, FastTrackSyncCommittees: c.Controller.FastTrack,
+		VerifySyncCommitteeInclusion: c.Controller.VerifySyncCommitteeInclusion && c.Controller.Altair, Validators: []uint64{3, 7}}
+	w := c03world.New(p, &c03world.TableSource{}, c03world.Options{Watchdog: 60 * time.Second})
+	defer w.Stop()
+	if err := w.AdvanceTo(w.StartOfSlot(cs).Add(time.Second)); err != nil {
+		out.harness = "controller world: " + err.Error()
+		return
+	}
+	if err := w.Start(true); err != nil {
+		out.harness = "controller world: " + err.Error()
+		return
+	}
+	out.label("events:controller")
+	// slots relative to the case's clock are re-based on the controller's clock
+	rebase := func(slot uint64) uint64 {
+		d := slot - c.CurrentSlot
+		if d+70 <= 140 { // within 70 slots of the current one, either side
+			return cs + d
+		}
+		return slot
+	}
+	for i := range c.Events {
+		e := c.Events[i]
+		e.Slot = rebase(e.Slot)
+		event := buildEvent(&e)
+		out.addPanic(guard(func() {
+			if e.Topic == "head" {
+				w.Proc.Ctrl.HandleHeadEvent(event)
+			} else {
+				w.Proc.Ctrl.HandleBlockEvent(event)
+			}
+		}))
+		if err := w.Quiesce(); err != nil {
+			out.harness = "controller world: " + err.Error()
+			return
+		}
+	}
+}
+
 func genEventsCase(t *rapid.T) Case {
 	c := &EventsCase{CurrentSlot: rapid.SampledFrom([]uint64{0, 1, 63, 64, 65, 1000, 1<<31 - 1, 1 << 32, 1 << 40, 1<<63 - 2, 1<<63 - 1}).Draw(t, "currentSlot")} // vouch's own clock
 	c.Initial = genSignedBlockSpec(t, c.CurrentSlot)
@@ -177,11 +338,35 @@ func genEventsCase(t *rapid.T) Case {
 			slot = c.CurrentSlot - 70
 		}
 		c.Events = append(c.Events, EventSpec{
-			Topic: rapid.SampledFrom([]string{"head", "head", "head", "block"}).Draw(t, "topic"),
-			Slot:  slot,
-			Root:  rapid.SampledFrom([]byte{0, 1, 2, 0xff}).Draw(t, "eventRoot"),
-			Block: genSignedBlockSpec(t, slot),
+			Topic:           rapid.SampledFrom([]string{"head", "head", "head", "block"}).Draw(t, "topic"),
+			Slot:            slot,
+			Root:            rapid.SampledFrom([]byte{0, 1, 2, 0xff}).Draw(t, "eventRoot"),
+			Block:           genSignedBlockSpec(t, slot),
+			PrevDep:         rapid.SampledFrom([]byte{0, 0, 5, 5, 6}).Draw(t, "prevDep"),
+			CurDep:          rapid.SampledFrom([]byte{0, 0, 6, 6, 7}).Draw(t, "curDep"),
+			EpochTransition: rapid.Bool().Draw(t, "epochTransition"),
+			NilData:         rapid.IntRange(0, 19).Draw(t, "nilData") == 0,
 		})
+	}
+	if rapid.IntRange(0, 2).Draw(t, "withAttData") == 0 {
+		p := &AttDataProbe{Strategy: rapid.SampledFrom([]string{"majority", "majority", "best"}).Draw(t, "attDataStrategy"),
+			HeaderSlot: genU64(t, "headerSlot")}
+		if rapid.IntRange(0, 3).Draw(t, "headerFails") == 0 {
+			p.HeaderErr = genErrKind(t, "headerErrKind")
+		}
+		n := rapid.IntRange(1, 3).Draw(t, "nAttDataNodes")
+		for i := 0; i < n; i++ {
+			p.Roots = append(p.Roots, rapid.SampledFrom([]byte{0, 1, 2, 0xff, 9}).Draw(t, "attDataRoot"))
+		}
+		c.AttData = p
+	}
+	if rapid.IntRange(0, 3).Draw(t, "withController") == 0 {
+		c.Controller = &ControllerSpec{
+			MaxProposalDelayMs:           rapid.SampledFrom([]uint64{0, 1000}).Draw(t, "maxProposalDelay"),
+			FastTrack:                    rapid.Bool().Draw(t, "fastTrack"),
+			VerifySyncCommitteeInclusion: rapid.Bool().Draw(t, "verifySync"),
+			Altair:                       rapid.IntRange(0, 3).Draw(t, "altair") > 0,
+		}
 	}
 	return Case{Target: "events", Events: c}
 }
